@@ -146,6 +146,138 @@ fn shapes_and_curves() {
     p("circle", (CubicBezier2::<f32>::unit_quarter_circle().evaluate(0.5), CubicBezier2::<f64>::unit_circle()[2].evaluate(0.25)));
 }
 
+/// Feature-only observations (`featcheck` lines).  They are NOT compared with the bare configuration (the items do not exist
+/// there); each line is a verdict of an exhaustive sweep over a small pixel alphabet: vek's `image::Pixel` impls for `Rgb<T>` /
+/// `Rgba<T>` against the `image` crate's own `Rgb<T>` / `Rgba<T>` (same trait, same channels) wherever both define the same
+/// thing, and against the colour-helper definitions of vek (full alpha, `full - x` inversion that keeps alpha) elsewhere.
+#[cfg(all(feature = "image", any(feature = "rgb", feature = "rgba")))]
+mod image_interop {
+    extern crate image_crate as image;
+    use self::image::{Pixel, Primitive};
+    use std::fmt::Debug;
+    use vek::ColorComponent;
+
+    pub struct Tally { n: u64, bad: u64, first: Vec<String> }
+    impl Tally {
+        fn new() -> Self { Tally { n: 0, bad: 0, first: vec![] } }
+        fn chk<A: PartialEq + Debug>(&mut self, what: &str, input: &dyn Debug, got: A, want: A) {
+            self.n += 1;
+            if got != want { self.bad += 1; if self.first.len() < 3 { self.first.push(format!("{} on {:?}: got {:?}, want {:?}", what, input, got, want)); } }
+        }
+        fn done(self, name: &str) {
+            if self.bad == 0 { println!("featcheck image {} = ok n={}", name, self.n); } else { println!("featcheck image {} = FAIL bad={} of {} first={:?}", name, self.bad, self.n, self.first); }
+        }
+    }
+    /// r+g+b is representable (vek's to_luma forms that sum in T, like average_rgb, whose documentation says so)
+    fn fits<T: Primitive>(r: T, g: T, b: T) -> bool { let f = |x: T| x.to_f64().unwrap(); f(r) + f(g) + f(b) <= f(T::max_value()) && f(r) + f(g) >= f(T::min_value()) && f(r) + f(g) + f(b) >= f(T::min_value()) && f(r) + f(g) <= f(T::max_value()) }
+    pub struct Fns<T> { pub f: fn(T) -> T, pub g: fn(T) -> T, pub h: fn(T, T) -> T, pub inv: fn(T) -> T, pub full: T, pub int: bool }
+
+    #[cfg(feature = "rgba")]
+    pub fn rgba<T>(ty: &str, al: &[T], k: &Fns<T>) where T: Primitive + ColorComponent + Debug + PartialEq + 'static {
+        type V<T> = vek::Rgba<T>; type I<T> = image::Rgba<T>;
+        let mut t = Tally::new();
+        let (f, g, h) = (k.f, k.g, k.h);
+        t.chk("CHANNEL_COUNT", &ty, (<V<T> as Pixel>::CHANNEL_COUNT, <V<T> as Pixel>::channel_count()), (<I<T> as Pixel>::CHANNEL_COUNT, 4));
+        t.chk("COLOR_MODEL", &ty, (<V<T> as Pixel>::COLOR_MODEL, <V<T> as Pixel>::color_model()), (<I<T> as Pixel>::COLOR_MODEL, "RGBA"));
+        if k.int { t.chk("COLOR_TYPE", &ty, (<V<T> as Pixel>::COLOR_TYPE, <V<T> as Pixel>::color_type()), (<I<T> as Pixel>::COLOR_TYPE, <I<T> as Pixel>::color_type())); }
+        for &r in al { for &gg in al { for &b in al { for &a in al {
+            let px = [r, gg, b, a]; let o = [a, b, r, gg];
+            let v: V<T> = vek::Rgba { r, g: gg, b, a }; let i: I<T> = image::Rgba(px);
+            let vo: V<T> = vek::Rgba { r: o[0], g: o[1], b: o[2], a: o[3] }; let io: I<T> = image::Rgba(o);
+            let arr = |p: &V<T>| [p.r, p.g, p.b, p.a];
+            t.chk("channels", &px, Pixel::channels(&v).to_vec(), i.channels().to_vec());
+            t.chk("channels4", &px, Pixel::channels4(&v), i.channels4());
+            t.chk("from_channels", &px, arr(&<V<T> as Pixel>::from_channels(r, gg, b, a)), <I<T> as Pixel>::from_channels(r, gg, b, a).0);
+            t.chk("from_slice", &px, arr(<V<T> as Pixel>::from_slice(&px)), <I<T> as Pixel>::from_slice(&px).0);
+            let (mut s1, mut s2) = (px, px);
+            { let m = <V<T> as Pixel>::from_slice_mut(&mut s1); Pixel::channels_mut(m)[3] = f(a); m.g = g(gg); }
+            { let m = <I<T> as Pixel>::from_slice_mut(&mut s2); m.channels_mut()[3] = f(a); m.0[1] = g(gg); }
+            t.chk("from_slice_mut + channels_mut write through", &px, s1, s2);
+            t.chk("to_rgb", &px, Pixel::to_rgb(&v).0, i.to_rgb().0);
+            t.chk("to_rgba", &px, Pixel::to_rgba(&v).0, i.to_rgba().0);
+            t.chk("to_bgr", &px, Pixel::to_bgr(&v).0, i.to_bgr().0);
+            t.chk("to_bgra", &px, Pixel::to_bgra(&v).0, i.to_bgra().0);
+            if fits(r, gg, b) { t.chk("to_luma_alpha keeps alpha", &px, Pixel::to_luma_alpha(&v).0[1], a); }
+            t.chk("map", &px, arr(&Pixel::map(&v, f)), i.map(f).0);
+            t.chk("map_with_alpha", &px, arr(&Pixel::map_with_alpha(&v, f, g)), i.map_with_alpha(f, g).0);
+            t.chk("map_without_alpha", &px, arr(&Pixel::map_without_alpha(&v, f)), i.map_without_alpha(f).0);
+            t.chk("map2", &px, arr(&Pixel::map2(&v, &vo, h)), i.map2(&io, h).0);
+            let (mut v2, mut i2) = (v, i); Pixel::apply(&mut v2, f); i2.apply(f); t.chk("apply", &px, arr(&v2), i2.0);
+            let (mut v2, mut i2) = (v, i); Pixel::apply_with_alpha(&mut v2, f, g); i2.apply_with_alpha(f, g); t.chk("apply_with_alpha", &px, arr(&v2), i2.0);
+            let (mut v2, mut i2) = (v, i); Pixel::apply_without_alpha(&mut v2, f); i2.apply_without_alpha(f); t.chk("apply_without_alpha", &px, arr(&v2), i2.0);
+            let (mut v2, mut i2) = (v, i); Pixel::apply2(&mut v2, &vo, h); i2.apply2(&io, h); t.chk("apply2", &px, arr(&v2), i2.0);
+            let (mut v2, mut i2) = (v, i); Pixel::invert(&mut v2); i2.invert();
+            t.chk("invert = full - x on r,g,b, alpha kept", &px, arr(&v2), [(k.inv)(r), (k.inv)(gg), (k.inv)(b), a]);
+            t.chk("invert = inverted_rgb", &px, arr(&v2), arr(&v.inverted_rgb()));
+            if k.int { t.chk("invert agrees with image::Rgba", &px, arr(&v2), i2.0); }
+            Pixel::invert(&mut v2); t.chk("invert twice", &px, arr(&v2), px);
+            // a second call on the same value, and a call after an in-place mutation (history)
+            let mut v3 = v; Pixel::apply(&mut v3, f); Pixel::invert(&mut v3);
+            t.chk("apply then invert", &px, arr(&v3), [(k.inv)(f(r)), (k.inv)(f(gg)), (k.inv)(f(b)), f(a)]);
+        }}}}
+        t.done(&format!("Rgba<{}>", ty));
+    }
+
+    #[cfg(feature = "rgb")]
+    pub fn rgb<T>(ty: &str, al: &[T], k: &Fns<T>) where T: Primitive + ColorComponent + Debug + PartialEq + 'static {
+        type V<T> = vek::Rgb<T>; type I<T> = image::Rgb<T>;
+        let mut t = Tally::new();
+        let (f, g, h) = (k.f, k.g, k.h);
+        t.chk("CHANNEL_COUNT", &ty, (<V<T> as Pixel>::CHANNEL_COUNT, <V<T> as Pixel>::channel_count()), (<I<T> as Pixel>::CHANNEL_COUNT, 3));
+        t.chk("COLOR_MODEL", &ty, (<V<T> as Pixel>::COLOR_MODEL, <V<T> as Pixel>::color_model()), (<I<T> as Pixel>::COLOR_MODEL, "RGB"));
+        if k.int { t.chk("COLOR_TYPE", &ty, (<V<T> as Pixel>::COLOR_TYPE, <V<T> as Pixel>::color_type()), (<I<T> as Pixel>::COLOR_TYPE, <I<T> as Pixel>::color_type())); }
+        for &r in al { for &gg in al { for &b in al {
+            let px = [r, gg, b]; let o = [b, r, gg]; let d = al[al.len() / 2];
+            let v: V<T> = vek::Rgb { r, g: gg, b }; let i: I<T> = image::Rgb(px);
+            let vo: V<T> = vek::Rgb { r: o[0], g: o[1], b: o[2] }; let io: I<T> = image::Rgb(o);
+            let arr = |p: &V<T>| [p.r, p.g, p.b];
+            t.chk("channels", &px, Pixel::channels(&v).to_vec(), i.channels().to_vec());
+            t.chk("channels4 (full alpha)", &px, Pixel::channels4(&v), (r, gg, b, k.full));
+            t.chk("from_channels", &px, arr(&<V<T> as Pixel>::from_channels(r, gg, b, d)), <I<T> as Pixel>::from_channels(r, gg, b, d).0);
+            t.chk("from_slice", &px, arr(<V<T> as Pixel>::from_slice(&px)), <I<T> as Pixel>::from_slice(&px).0);
+            let (mut s1, mut s2) = (px, px);
+            { let m = <V<T> as Pixel>::from_slice_mut(&mut s1); Pixel::channels_mut(m)[2] = f(b); m.r = g(r); }
+            { let m = <I<T> as Pixel>::from_slice_mut(&mut s2); m.channels_mut()[2] = f(b); m.0[0] = g(r); }
+            t.chk("from_slice_mut + channels_mut write through", &px, s1, s2);
+            t.chk("to_rgb", &px, Pixel::to_rgb(&v).0, i.to_rgb().0);
+            t.chk("to_bgr", &px, Pixel::to_bgr(&v).0, i.to_bgr().0);
+            t.chk("to_rgba (full alpha)", &px, Pixel::to_rgba(&v).0, [r, gg, b, k.full]);
+            t.chk("to_bgra (full alpha)", &px, Pixel::to_bgra(&v).0, [b, gg, r, k.full]);
+            if fits(r, gg, b) { t.chk("to_luma_alpha has full alpha", &px, Pixel::to_luma_alpha(&v).0[1], k.full); }
+            if k.int {
+                t.chk("channels4 agrees with image::Rgb", &px, Pixel::channels4(&v), i.channels4());
+                t.chk("to_rgba agrees with image::Rgb", &px, Pixel::to_rgba(&v).0, i.to_rgba().0);
+                t.chk("to_bgra agrees with image::Rgb", &px, Pixel::to_bgra(&v).0, i.to_bgra().0);
+            }
+            t.chk("map", &px, arr(&Pixel::map(&v, f)), i.map(f).0);
+            t.chk("map_with_alpha", &px, arr(&Pixel::map_with_alpha(&v, f, g)), i.map_with_alpha(f, g).0);
+            t.chk("map_without_alpha", &px, arr(&Pixel::map_without_alpha(&v, f)), i.map_without_alpha(f).0);
+            t.chk("map2", &px, arr(&Pixel::map2(&v, &vo, h)), i.map2(&io, h).0);
+            let (mut v2, mut i2) = (v, i); Pixel::apply(&mut v2, f); i2.apply(f); t.chk("apply", &px, arr(&v2), i2.0);
+            let (mut v2, mut i2) = (v, i); Pixel::apply_with_alpha(&mut v2, f, g); i2.apply_with_alpha(f, g); t.chk("apply_with_alpha", &px, arr(&v2), i2.0);
+            let (mut v2, mut i2) = (v, i); Pixel::apply_without_alpha(&mut v2, f); i2.apply_without_alpha(f); t.chk("apply_without_alpha", &px, arr(&v2), i2.0);
+            let (mut v2, mut i2) = (v, i); Pixel::apply2(&mut v2, &vo, h); i2.apply2(&io, h); t.chk("apply2", &px, arr(&v2), i2.0);
+            let (mut v2, mut i2) = (v, i); Pixel::invert(&mut v2); i2.invert();
+            t.chk("invert = full - x", &px, arr(&v2), [(k.inv)(r), (k.inv)(gg), (k.inv)(b)]);
+            t.chk("invert = inverted_rgb", &px, arr(&v2), arr(&v.inverted_rgb()));
+            if k.int { t.chk("invert agrees with image::Rgb", &px, arr(&v2), i2.0); }
+            Pixel::invert(&mut v2); t.chk("invert twice", &px, arr(&v2), px);
+        }}}
+        t.done(&format!("Rgb<{}>", ty));
+    }
+
+    pub fn run() {
+        let k8 = Fns::<u8> { f: |x| x.wrapping_mul(3).wrapping_add(7), g: |x| x ^ 0x55, h: |x, y| x.wrapping_sub(y.wrapping_mul(2)), inv: |x| 255 - x, full: 255, int: true };
+        let k16 = Fns::<u16> { f: |x| x.wrapping_mul(3).wrapping_add(7), g: |x| x ^ 0x5555, h: |x, y| x.wrapping_sub(y.wrapping_mul(2)), inv: |x| 65535 - x, full: 65535, int: true };
+        let kf = Fns::<f32> { f: |x| x * 3.0 + 7.0, g: |x| x - 0.5, h: |x, y| x - 2.0 * y, inv: |x| 1.0 - x, full: 1.0, int: false };
+        let a8 = [0u8, 1, 2, 127, 128, 254, 255];
+        let a16 = [0u16, 1, 255, 256, 32767, 32768, 65534, 65535];
+        let af = [0.0f32, 0.25, 0.5, 1.0, -1.0, 2.0];
+        #[cfg(feature = "rgba")] { rgba("u8", &a8, &k8); rgba("u16", &a16, &k16); rgba("f32", &af, &kf); }
+        #[cfg(feature = "rgb")] { rgb("u8", &a8, &k8); rgb("u16", &a16, &k16); rgb("f32", &af, &kf); }
+    }
+}
+
 fn main() {
     // which configuration this binary was compiled for (checked by the driver against the requested one; not part of the comparison)
     let cfg: Vec<&str> = [("std", cfg!(feature = "std")), ("libm", cfg!(feature = "libm")), ("vec8", cfg!(feature = "vec8")), ("vec16", cfg!(feature = "vec16")), ("vec32", cfg!(feature = "vec32")), ("vec64", cfg!(feature = "vec64")),
@@ -158,5 +290,7 @@ fn main() {
     quaternions_and_transforms();
     ops();
     shapes_and_curves();
+    #[cfg(all(feature = "image", any(feature = "rgb", feature = "rgba")))]
+    image_interop::run();
     p("checked wrapping", (Vec2::new(250u8, 1).checked_add(&Vec2::new(5, 1)), Vec2::new(250u8, 1).wrapping_add(&Vec2::new(10, 1))));
 }
